@@ -39,8 +39,9 @@ LEVEL_TEXT = ('For every bounded configuration and every copy operation: the '
 LEVEL_NOTE = ('Trusted: mc.canon, mutable_ids. Bounds: N<=3 nodes, edit '
               'sequences <=2 (quick) / 3 (thorough).')
 
-MENU = ['cfg', 'par', 'cfgpos', 'list2', 'dict1', 'tuple1']
-ROOTS = ['cfg', 'par', 'cfgpos']
+MENU = ['cfg', 'par', 'cfgpos', 'list2', 'dict1', 'tuple1', 'mutdef', 'ckw',
+        'cann']
+ROOTS = ['cfg', 'par', 'cfgpos', 'mutdef', 'ckw', 'cann']
 NCHUNK = 48
 
 
@@ -58,12 +59,13 @@ def units(tier, seed):
 
 
 def all_cases(b):
-  ks = shapes.std_kinds(MENU)
+  make((('cfg', ('U', 'U')),), 'none')      # initialises BYNAME
+  ks = [BYNAME[m] for m in MENU]
   for s in shapes.all_shapes(ks, b['n'], 1, root_kinds=ROOTS):
     for tagv in ('none', 'tags'):
       yield s, tagv
   if b['n_small'] > b['n']:
-    ks2 = shapes.std_kinds(b['small_menu'])
+    ks2 = [BYNAME[m] for m in b['small_menu']]
     for s in shapes.enumerate_shapes(ks2, b['n_small'], 1, root_kinds=ROOTS):
       for tagv in ('none', 'tags'):
         yield s, tagv
@@ -72,10 +74,35 @@ def all_cases(b):
 BYNAME = None
 
 
+def _extra_kinds():
+  K = shapes.Kind
+
+  def mk_mutdef(vals):
+    # the mutable default object itself made an explicit argument
+    c = fdl.Config(N.md, x=N.MUT_DEFAULT)
+    if vals[0] is not shapes.UNSET:
+      c.y = vals[0]
+    return c
+
+  def mk_kw(vals):
+    kw = {n: v for n, v in zip(('x', 'extra'), vals) if v is not shapes.UNSET}
+    return fdl.Config(N.node_kw, **kw)
+
+  def mk_ann(vals):
+    kw = {n: v for n, v in zip(('x', 'y'), vals) if v is not shapes.UNSET}
+    return fdl.Config(N.node_tagged, **kw)
+
+  return {'mutdef': K('mutdef', 1, True, mk_mutdef, True),
+          'ckw': K('ckw', 2, True, mk_kw, True),
+          'cann': K('cann', 2, True, mk_ann, True)}
+
+
 def make(shape, tagv):
   global BYNAME
   if BYNAME is None:
-    BYNAME = {k.name: k for k in shapes.std_kinds(MENU)}
+    BYNAME = {k.name: k for k in shapes.std_kinds(
+        [m for m in MENU if m not in ('mutdef', 'ckw', 'cann')])}
+    BYNAME.update(_extra_kinds())
   objs = shapes.materialize(shape, BYNAME, ['L1'])
   root = objs[-1]
   if tagv == 'tags':
@@ -83,6 +110,17 @@ def make(shape, tagv):
     if names:
       fdl.add_tag(root, names[0], N.TagA)
       fdl.add_tag(root, names[-1], N.TagB)
+    # tags on arguments that may have no value and no parameter name of
+    # their own: positional-only index, *args slot, a **kwargs name
+    params = list(root.__signature_info__.signature.parameters.values())
+    if params and params[0].kind == params[0].POSITIONAL_ONLY:
+      fdl.add_tag(root, 0, N.TagC)
+      fdl.add_tag(root, 3, N.TagA)
+    if root.__fn_or_cls__ is N.node_kw:
+      fdl.add_tag(root, 'other_extra', N.TagC)
+    if root.__fn_or_cls__ is N.node_tagged:
+      # the annotation tag removed and replaced
+      fdl.set_tags(root, 'x', {N.TagC})
     for o in objs[:-1]:
       if isinstance(o, fdl.Buildable) and _named(o):
         fdl.add_tag(o, _named(o)[0], N.TagC)
@@ -198,7 +236,9 @@ def apply_edit(cfg, e):
       cfg[fdl.VARARGS:] = ['V1', 'V2']
     elif k == 'mutate_nested_list':
       lst = _first_nested(cfg, list)
-      if lst is None:
+      if lst is None or lst is N.MUT_DEFAULT:
+        # (the module-level default object is shared by every fixture that
+        # names it: the harness must not edit it)
         return 'n/a'
       lst.append('APPENDED')
     elif k == 'edit_nested_buildable':
@@ -323,8 +363,10 @@ def check_case(shape, tagv, op, b, res):
         setattr(twin, _named(twin)[0], 'U')
       for ei in seq:
         e = alphabet[ei]
-        r1 = apply_edit(cp2, e)
         r2 = apply_edit(twin, e)
+        if r2 == 'n/a':
+          continue        # not applicable to this configuration
+        r1 = apply_edit(cp2, e)
         res.transitions += 1
         if r1 != r2:
           res.violation(
